@@ -12,6 +12,8 @@ def _c11_fsm(ctx):
 def _c04(ctx):
     lazy.rule_lazy_solvers(ctx)
     lazy.rule_lazy_adj(ctx)
+    lazy.rule_lazy_cascade(ctx)
+    lazy.rule_lazy_chain(ctx)
 
 
 PROPS = {
@@ -23,7 +25,9 @@ PROPS = {
                        "AdjEnvelope, AdjCholDec, AdjGSO, AdjSVD, SVD, Adj: L1 a cached result is never read in a state where its "
                        "validity predicate can be false (guard dominance with polarity), L2 a method that writes an input leaves "
                        "the dependent results invalidated on every normal exit, plus inductiveness of the flag invariant. "
-                       "The roles (flag -> fields) are frozen in sa/tables/lazy.json. History independence of the numbers "
+                       "For LocalNetwork and g3::Model the invalidation cascade (update(stage) resets that and all later flags) and the stage chain "
+                       "(every stage function runs the previous stage when it is not established and marks its own stage done; consumers run "
+                       "their stage first) are decided. The roles (flag -> fields) are frozen in sa/tables/lazy.json. History independence of the numbers "
                        "themselves is not decided - only that no query can observe a stale or not-yet-computed field.",
     },
     "C11": {
